@@ -64,6 +64,8 @@ class EncoderWorld(World):
             if kind == "refrac" and ro.random() < 0.2:
                 k2 = ro.choice([None, 1, 2, 3, 4])
                 ops.append({"op": "set_refrac", "k": k2})
+            if ro.random() < 0.15:
+                ops.append({"op": "set_dt", "v": ro.choice(DTS + [dt, dt])})
         return {"config": cfg, "ops": ops}
 
     def execute(self, desc, ctx):
@@ -71,7 +73,7 @@ class EncoderWorld(World):
 
         cfg = desc["config"]
         kind, dt, shape = cfg["kind"], cfg["dt"], cfg["shape"]
-        st = {"steps": cfg["steps"], "k": cfg["refrac_k"]}
+        st = {"steps": cfg["steps"], "k": cfg["refrac_k"], "dt": dt, "refrac_ms": None if cfg["refrac_k"] is None else cfg["refrac_k"] * dt}
         gen = torch.Generator()
         refrac = None if st["k"] is None else st["k"] * dt
         with ctx.impl("encoder()", {"kind": kind}):
@@ -84,14 +86,17 @@ class EncoderWorld(World):
         ctx.log("config", kind, dt, st["steps"], cfg["freq"], st["k"], cfg["compensate"], shape)
 
         def facts(**kw):
-            f = {"kind": kind, "steps": st["steps"], "refrac_k": st["k"], "compensate": cfg["compensate"], "dt": dt}
+            f = {"kind": kind, "steps": st["steps"], "refrac_k": st["k"], "compensate": cfg["compensate"], "dt": st["dt"]}
             f.update(kw)
             return f
 
         def gap_steps():
-            if kind != "refrac" or st["k"] is None:
+            """minimum spike distance in steps: the configured refractory period (ms) over the current step time,
+            when that is (within rounding) a whole number of steps; otherwise one step less is legitimate"""
+            if kind != "refrac" or st["refrac_ms"] is None:
                 return 1
-            return st["k"]
+            q = st["refrac_ms"] / st["dt"]
+            return max(1, int(round(q)) if abs(q - round(q)) < 1e-9 else int(q))
 
         def check_train(train, x, where, mode):
             """train: (steps, *S) bool tensor assembled from the output"""
@@ -147,16 +152,33 @@ class EncoderWorld(World):
                 if kind != "refrac":
                     continue
                 k = op["k"]
-                if k is not None and cfg["freq"] * k * dt >= 900:
+                if k is not None and cfg["freq"] * k * st["dt"] >= 900:
                     continue
                 with ctx.impl("refrac setter"):
-                    enc.refrac = None if k is None else k * dt
+                    enc.refrac = None if k is None else k * st["dt"]
                 st["k"] = k
+                st["refrac_ms"] = None if k is None else k * st["dt"]
                 ctx.log("set_refrac", k)
+                continue
+            if op["op"] == "set_dt":
+                v = op["v"]
+                if kind == "refrac" and st["refrac_ms"] is not None and (cfg["freq"] * st["refrac_ms"] >= 900):
+                    continue
+                if kind == "refrac" and st["refrac_ms"] is None and cfg["freq"] * v >= 900:
+                    continue
+                with ctx.impl("dt setter"):
+                    enc.dt = v
+                st["dt"] = v
+                ctx.log("set_dt", v)
+                ctx.fault("dt_reassigned")
+                if kind == "refrac":
+                    want = v if st["refrac_ms"] is None else st["refrac_ms"]
+                    if abs(enc.refrac - want) > 1e-12:
+                        ctx.fail("refrac_after_dt", facts(op="set_dt"), f"after dt = {v} the encoder reports refrac {enc.refrac}, configured {want}")
                 continue
             x = torch.tensor(op["x"], dtype=torch.float32).reshape(shape)
             mode = op["mode"]
-            ctx.step(st["steps"], dt)
+            ctx.step(st["steps"], st["dt"])
             if mode == "offline":
                 res = []
                 for rep in range(2):
